@@ -621,6 +621,309 @@ Section WithL1.
     rewrite !forallb_app. unfold A, R, S, I.
     rewrite !wrapped_not_named, rules_part_not_named by reflexivity. reflexivity.
   Qed.
+
+  (** * The general form: what decode (encode d) is for EVERY well-formed document *)
+  Definition trim_list : list (pv L) -> list (pv L) :=
+    fix go (l : list (pv L)) : list (pv L) :=
+      match l with [] => [] | x :: r => trim_pv L x :: go r end.
+  Definition trim_ents : list (string * pv L) -> list (string * pv L) :=
+    fix go (l : list (string * pv L)) : list (string * pv L) :=
+      match l with [] => [] | (k, x) :: r => (trim k, trim_pv L x) :: go r end.
+  Lemma trim_pv_arr : forall l, trim_pv L (PArr L l) = PArr L (trim_list l).
+  Proof. reflexivity. Qed.
+  Lemma trim_pv_dict : forall l, trim_pv L (PDict L l) = PDict L (dict_of_pairs L (trim_ents l)).
+  Proof. reflexivity. Qed.
+
+  Theorem dec_enc_pv_gen : forall v, pv_ok L v = true -> dec_pv L (enc_pv L v) = Some (trim_pv L v).
+  Proof.
+    induction v as [s|z|r|b|d|t|l IH|l IH] using pv_ind2; intros Hok.
+    - cbn [enc_pv trim_pv]. change (dec_pv L (Elem "string" [] (text_kids s)))
+        with (option_map (PStr L) (kids_text (text_kids s))). now rewrite kids_text_text_kids.
+    - apply dec_enc_pv; [exact Hok|reflexivity].
+    - apply dec_enc_pv; reflexivity.
+    - apply dec_enc_pv; reflexivity.
+    - apply dec_enc_pv; reflexivity.
+    - apply dec_enc_pv; reflexivity.
+    - rewrite enc_pv_arr, dec_pv_arr, trim_pv_arr. rewrite pv_ok_arr in Hok.
+      assert (K : dec_arr (enc_arr l) = Some (trim_list l)).
+      { induction l as [|x r IHr]; [reflexivity|].
+        inversion IH as [|? ? Px Pr]; subst.
+        cbn [pv_ok_list] in Hok. apply andb_true_iff in Hok as [Ho1 Ho2].
+        cbn [enc_arr dec_arr trim_list]. rewrite (Px Ho1).
+        fold enc_arr. fold dec_arr. fold trim_list. now rewrite (IHr Pr Ho2). }
+      now rewrite K.
+    - rewrite enc_pv_dict, dec_pv_dict, trim_pv_dict. rewrite pv_ok_dict in Hok.
+      apply andb_true_iff in Hok as [_ Hok].
+      assert (K : dec_ents (enc_ents l) = Some (trim_ents l)).
+      { induction l as [|[k x] r IHr]; [reflexivity|].
+        inversion IH as [|? ? Px Pr]; subst. cbn [snd] in Px.
+        cbn [pv_ok_ents] in Hok. apply andb_true_iff in Hok as [Ho1 Ho2].
+        cbn [enc_ents dec_ents trim_ents]. change (tag_is "key" "key") with true. cbn iota.
+        rewrite kids_text_text_kids, (Px Ho1).
+        fold enc_ents. fold dec_ents. fold trim_ents. now rewrite (IHr Pr Ho2). }
+      now rewrite K.
+  Qed.
+
+  Lemma all_opt_map_gen {A B} (f : B -> option A) (g : A -> B) (h : A -> A) : forall l,
+    (forall x, In x l -> f (g x) = Some (h x)) -> all_opt (map f (map g l)) = Some (map h l).
+  Proof.
+    induction l as [|x l IH]; intros H; [reflexivity|].
+    cbn. rewrite (H x (or_introl eq_refl)), IH; [reflexivity|].
+    intros y Hy. apply H. now right.
+  Qed.
+  Lemma dec_wrapped_map_gen {A} (inner outer : string) (f : A -> node) (g : node -> option A) (h : A -> A) :
+    forall l a,
+    l <> [] -> (forall x, is_named inner (f x) = true) -> (forall x, is_elemb (f x) = true) ->
+    (forall x, In x l -> g (f x) = Some (h x)) ->
+    dec_wrapped inner g (Elem outer a (map f l)) = Some (map h l).
+  Proof.
+    intros l a Hne Hn He Hg. unfold dec_wrapped. rewrite elems_map by exact He.
+    rewrite req_list_map by assumption. cbn [bind]. now apply all_opt_map_gen.
+  Qed.
+
+  Lemma dec_enc_lib_node_gen : forall l,
+    dict_ok L l = true -> dec_lib L (enc_lib L l) = Some (trim_dict L l).
+  Proof.
+    intros l Hok. unfold dec_lib, enc_lib.
+    change (elems [enc_pv L (PDict L l)]) with [enc_pv L (PDict L l)].
+    change (field_one "dict" [enc_pv L (PDict L l)]) with (Some (Some (enc_pv L (PDict L l)))).
+    cbv iota beta. rewrite (dec_enc_pv_gen (PDict L l) Hok). unfold trim_dict.
+    now rewrite trim_pv_dict.
+  Qed.
+  Lemma dec_enc_lib_field_gen : forall l pre,
+    dict_ok L l = true -> forallb (not_named "lib") pre = true ->
+    dec_lib_field L (pre ++ enc_lib_field L l) = Some (trim_dict L l).
+  Proof.
+    intros l pre Hok Hp. unfold dec_lib_field, field_one.
+    rewrite field_list_skip by exact Hp.
+    destruct l as [|kv r]; [reflexivity|].
+    change (field_list "lib" (enc_lib_field L (kv :: r))) with (Some [enc_lib L (kv :: r)]).
+    now apply dec_enc_lib_node_gen.
+  Qed.
+  Lemma dec_enc_instance_gen : forall i,
+    nonempty (i_location L i) && dict_ok L (i_lib L i) = true ->
+    dec_instance L (enc_instance L i) = Some (trim_instance L i).
+  Proof.
+    intros [fam sty name fname ps smf sms loc lib] H. cbn [i_location i_lib] in *.
+    apply andb_true_iff in H as [Hl Hok].
+    unfold dec_instance, enc_instance, trim_instance.
+    cbn [i_familyname i_stylename i_name i_filename i_postscriptfontname i_stylemapfamilyname
+         i_stylemapstylename i_location i_lib].
+    assert (E : elems (enc_location L loc :: enc_lib_field L lib) = enc_location L loc :: enc_lib_field L lib).
+    { destruct lib; reflexivity. }
+    rewrite E.
+    rewrite dec_enc_location; [| destruct loc; [discriminate|congruence] | destruct lib; reflexivity].
+    cbn [bind].
+    change (enc_location L loc :: enc_lib_field L lib) with ([enc_location L loc] ++ enc_lib_field L lib).
+    rewrite dec_enc_lib_field_gen by (assumption || reflexivity). cbn [bind].
+    destruct fam, sty, name, fname, ps, smf, sms; reflexivity.
+  Qed.
+
+  Theorem decode_encode_gen : forall d,
+    ds_wf L d -> ds_decode L (ds_encode L d) = Some (ds_trim L d).
+  Proof.
+    intros [fmt axes rls srcs insts lib] Hwf.
+    unfold ds_wf, ds_wfb in Hwf.
+    cbn [ds_axes ds_rules ds_sources ds_instances ds_lib] in *.
+    repeat (apply andb_true_iff in Hwf as [Hwf ?]).
+    rename H into Hlib, H0 into Hinst, H1 into Hsloc, H2 into Hsrc, H3 into Hrules, H4 into Haxwf.
+    rename Hwf into Hax.
+    rewrite ds_encode_kids. cbn [ds_format ds_axes ds_rules ds_sources ds_instances ds_lib].
+    set (A := wrapped "axes" (enc_axis L) axes).
+    set (R := rules_part rls).
+    set (S := wrapped "sources" (enc_source L) srcs).
+    set (I := wrapped "instances" (enc_instance L) insts).
+    set (B := enc_lib_field L lib).
+    unfold ds_decode.
+    assert (E : elems (A ++ R ++ S ++ I ++ B) = A ++ R ++ S ++ I ++ B).
+    { apply elems_all. rewrite !forallb_app. unfold A, S, I, R, B.
+      rewrite !wrapped_elems. cbn [andb].
+      unfold rules_part. destruct (rs_rules L rls); destruct lib; reflexivity. }
+    rewrite E.
+    assert (Fmt : req_f32 L "format" [("format", l_f32_print L fmt)] = Some fmt).
+    { unfold req_f32, attr. cbn. apply f32_pp. }
+    rewrite Fmt. cbn [bind].
+    (* axes *)
+    assert (FA : field_one "axes" (A ++ R ++ S ++ I ++ B) = Some (Some (Elem "axes" [] (map (enc_axis L) axes)))).
+    { unfold field_one. rewrite (field_list_run "axes" A (R ++ S ++ I ++ B)).
+      - unfold A. destruct axes; [discriminate|reflexivity].
+      - apply wrapped_is_named.
+      - rewrite !forallb_app. unfold R, S, I, B.
+        rewrite rules_part_not_named, !wrapped_not_named, lib_field_not_named by reflexivity. reflexivity. }
+    rewrite FA.
+    rewrite (dec_wrapped_map "axis" "axes" (enc_axis L) (dec_axis L) axes []);
+      [| destruct axes; [discriminate|congruence] | reflexivity | reflexivity |
+         intros x Hx; apply dec_enc_axis; rewrite forallb_forall in Haxwf; now apply Haxwf].
+    cbn [bind].
+    (* rules *)
+    assert (FR : match field_one "rules" (A ++ R ++ S ++ I ++ B) with
+                 | Some None => Some {| rs_processing := PFirst; rs_rules := [] |}
+                 | Some (Some n) => dec_rules L n
+                 | None => None
+                 end = Some rls).
+    { unfold field_one. rewrite (field_list_mid "rules" A R (S ++ I ++ B)).
+      - unfold rules_wf in Hrules. apply andb_true_iff in Hrules as [Hr1 Hr2].
+        unfold R, rules_part. destruct rls as [p rs]. cbn [rs_rules rs_processing] in *.
+        destruct rs as [|r0 rs].
+        + destruct p; [reflexivity|discriminate].
+        + now apply dec_enc_rules.
+      - unfold A. now apply wrapped_not_named.
+      - apply rules_part_named.
+      - rewrite !forallb_app. unfold S, I, B.
+        rewrite !wrapped_not_named, lib_field_not_named by reflexivity. reflexivity. }
+    rewrite FR. cbn [bind].
+    (* sources *)
+    assert (FS : field_one "sources" (A ++ R ++ S ++ I ++ B) = Some (Some (Elem "sources" [] (map (enc_source L) srcs)))).
+    { unfold field_one. rewrite (app_assoc A R). rewrite (field_list_mid "sources" (A ++ R) S (I ++ B)).
+      - unfold S. destruct srcs; [discriminate|reflexivity].
+      - rewrite forallb_app. unfold A, R. rewrite wrapped_not_named, rules_part_not_named by reflexivity. reflexivity.
+      - apply wrapped_is_named.
+      - rewrite forallb_app. unfold I, B. rewrite wrapped_not_named, lib_field_not_named by reflexivity. reflexivity. }
+    rewrite FS.
+    rewrite (dec_wrapped_map "source" "sources" (enc_source L) (dec_source L) srcs []);
+      [| destruct srcs; [discriminate|congruence] | reflexivity | reflexivity |
+         intros x Hx; apply dec_enc_source; rewrite forallb_forall in Hsloc; now apply Hsloc].
+    cbn [bind].
+    (* instances *)
+    assert (FI : match field_one "instances" (A ++ R ++ S ++ I ++ B) with
+                 | Some None => Some []
+                 | Some (Some n) => dec_wrapped "instance" (dec_instance L) n
+                 | None => None
+                 end = Some (map (trim_instance L) insts)).
+    { unfold field_one.
+      replace (A ++ R ++ S ++ I ++ B) with ((A ++ R ++ S) ++ I ++ B) by (now rewrite <- !app_assoc).
+      rewrite (field_list_mid "instances" (A ++ R ++ S) I B).
+      - unfold I. destruct insts as [|i0 ir]; [reflexivity|]. cbn [wrapped].
+        apply dec_wrapped_map_gen; try reflexivity; [congruence|].
+        intros x Hx. apply dec_enc_instance_gen.
+        rewrite forallb_forall in Hinst. now apply Hinst.
+      - rewrite !forallb_app. unfold A, R, S.
+        rewrite !wrapped_not_named, rules_part_not_named by reflexivity. reflexivity.
+      - apply wrapped_is_named.
+      - unfold B. now apply lib_field_not_named. }
+    rewrite FI. cbn [bind].
+    (* lib *)
+    replace (A ++ R ++ S ++ I ++ B) with ((A ++ R ++ S ++ I) ++ B) by (now rewrite <- !app_assoc).
+    unfold B. rewrite dec_enc_lib_field_gen; [reflexivity|assumption|].
+    rewrite !forallb_app. unfold A, R, S, I.
+    rewrite !wrapped_not_named, rules_part_not_named by reflexivity. reflexivity.
+  Qed.
+
+  Lemma NoDup_app_snoc {A} : forall (l : list A) x, ~ In x l -> NoDup l -> NoDup (l ++ [x]).
+  Proof.
+    induction l as [|y l IH]; intros x Hn Hd; [constructor; [intros []|constructor]|].
+    inversion Hd as [|? ? Hy Hl]; subst. cbn. constructor.
+    - intros I. apply in_app_or in I as [I|I]; [now apply Hy|].
+      cbn in I. destruct I as [I|[]]. subst. apply Hn. now left.
+    - apply IH; [|exact Hl]. intros I. apply Hn. now right.
+  Qed.
+
+  (** * The class is exact *)
+  Lemma dict_insert_present : forall k (v : pv L) acc,
+    In k (map fst acc) -> length (dict_insert L k v acc) = length acc.
+  Proof.
+    induction acc as [|[k' v'] r IH]; intros H; [destruct H|].
+    cbn [dict_insert]. destruct (String.eqb k k') eqn:E; [reflexivity|].
+    cbn [length]. f_equal. apply IH. cbn in H. destruct H as [H|H]; [|exact H].
+    apply String.eqb_neq in E. congruence.
+  Qed.
+  Definition dict_fold (ps acc : list (string * pv L)) : list (string * pv L) :=
+    fold_left (fun a kv => dict_insert L (fst kv) (snd kv) a) ps acc.
+  Lemma dict_fold_bound : forall ps acc, length (dict_fold ps acc) <= length acc + length ps.
+  Proof.
+    induction ps as [|[k v] r IH]; intros acc; [cbn; lia|].
+    cbn [dict_fold fold_left fst snd]. fold (dict_fold r (dict_insert L k v acc)).
+    specialize (IH (dict_insert L k v acc)).
+    destruct (in_dec string_dec k (map fst acc)) as [I|N].
+    - rewrite (dict_insert_present k v acc I) in IH. cbn [length]. lia.
+    - rewrite (dict_insert_fresh k v acc N) in *. rewrite app_length in IH. cbn [length] in *. lia.
+  Qed.
+  Lemma dict_fold_nodup : forall ps acc,
+    length (dict_fold ps acc) = length acc + length ps ->
+    NoDup (map fst acc) -> NoDup (map fst (acc ++ ps)).
+  Proof.
+    induction ps as [|[k v] r IH]; intros acc Hl Hn; [now rewrite app_nil_r|].
+    cbn [dict_fold fold_left fst snd] in Hl. fold (dict_fold r (dict_insert L k v acc)) in Hl.
+    destruct (in_dec string_dec k (map fst acc)) as [I|N].
+    - exfalso. pose proof (dict_fold_bound r (dict_insert L k v acc)) as B.
+      rewrite (dict_insert_present k v acc I) in B. cbn [length] in Hl. lia.
+    - rewrite (dict_insert_fresh k v acc N) in Hl.
+      replace (acc ++ (k, v) :: r) with ((acc ++ [(k, v)]) ++ r) by (now rewrite <- app_assoc).
+      apply IH.
+      + rewrite app_length. cbn [length] in *. lia.
+      + rewrite map_app. cbn [map fst]. apply NoDup_app_snoc; assumption.
+  Qed.
+
+  Lemma trim_fix_edge : forall s, trim s = s -> edge_ws s = false.
+  Proof. intros s H. destruct (edge_ws s) eqn:E; [|reflexivity]. now apply trim_changes in E. Qed.
+
+  Lemma trim_ents_length : forall l, length (trim_ents l) = length l.
+  Proof. induction l as [|[k x] r IH]; [reflexivity|]. cbn [trim_ents length]. fold trim_ents. now rewrite IH. Qed.
+
+  (** a dictionary that survives trimming and re-insertion was not touched by either *)
+  Lemma dict_rebuild_fix : forall l, dict_of_pairs L (trim_ents l) = l -> trim_ents l = l.
+  Proof.
+    intros l H.
+    assert (N : NoDup (map fst ([] ++ trim_ents l))).
+    { apply dict_fold_nodup; [|constructor].
+      change (dict_fold (trim_ents l) []) with (dict_of_pairs L (trim_ents l)).
+      rewrite H. cbn [length]. now rewrite trim_ents_length. }
+    unfold dict_of_pairs in H. rewrite dict_of_pairs_aux in H by exact N. exact H.
+  Qed.
+
+  Theorem trim_pv_fix : forall v, trim_pv L v = v -> pv_edge_ws L v = false.
+  Proof.
+    induction v as [s|z|r|b|d|t|l IH|l IH] using pv_ind2; intros H; try reflexivity.
+    - cbn in *. injection H as H. now apply trim_fix_edge.
+    - rewrite trim_pv_arr in H. injection H as H. rewrite edge_arr.
+      induction l as [|x r IHr]; [reflexivity|].
+      inversion IH as [|? ? Px Pr]; subst.
+      cbn [trim_list] in H. fold trim_list in H. injection H as H1 H2.
+      cbn [edge_list]. rewrite (Px H1). fold edge_list. now rewrite (IHr Pr H2).
+    - rewrite trim_pv_dict in H. injection H as H. apply dict_rebuild_fix in H. rewrite edge_dict.
+      induction l as [|[k x] r IHr]; [reflexivity|].
+      inversion IH as [|? ? Px Pr]; subst. cbn [snd] in Px.
+      cbn [trim_ents] in H. fold trim_ents in H. injection H as H1 H2 H3.
+      cbn [edge_ents]. rewrite (trim_fix_edge _ H1), (Px H2). fold edge_ents. now rewrite (IHr Pr H3).
+  Qed.
+
+  Lemma trim_dict_fix : forall l, trim_dict L l = l -> dict_edge_ws L l = false.
+  Proof.
+    intros l H. unfold dict_edge_ws. apply trim_pv_fix. unfold trim_dict in H.
+    rewrite trim_pv_dict in *. now rewrite H.
+  Qed.
+
+  Lemma map_fix {A} (f : A -> A) : forall l, map f l = l -> forall x, In x l -> f x = x.
+  Proof.
+    induction l as [|y l IH]; intros H x I; [destruct I|].
+    cbn in H. injection H as H1 H2. destruct I as [<-|I]; [exact H1|now apply IH].
+  Qed.
+
+  Theorem ds_trim_fix : forall d, ds_trim L d = d -> ~ KnownClass_C18 L d.
+  Proof.
+    intros [fmt axes rls srcs insts lib] H. unfold ds_trim in H.
+    cbn [ds_format ds_axes ds_rules ds_sources ds_instances ds_lib] in H.
+    injection H as Hi Hl.
+    unfold KnownClass_C18, known_class_b. cbn [ds_lib ds_instances].
+    rewrite (trim_dict_fix _ Hl). cbn [orb].
+    assert (E : existsb (fun i => dict_edge_ws L (i_lib L i)) insts = false).
+    { destruct (existsb (fun i => dict_edge_ws L (i_lib L i)) insts) eqn:Ex; [|reflexivity].
+      apply existsb_exists in Ex as (x & Hx & Ed).
+      pose proof (map_fix _ _ Hi x Hx) as Fx.
+      assert (Fl : trim_dict L (i_lib L x) = i_lib L x).
+      { destruct x. unfold trim_instance in Fx. cbn in *. now injection Fx. }
+      rewrite (trim_dict_fix _ Fl) in Ed. discriminate. }
+    rewrite E. discriminate.
+  Qed.
+
+  (** for a well-formed document the round trip holds exactly outside the class *)
+  Theorem decode_encode_iff : forall d,
+    ds_wf L d -> (ds_decode L (ds_encode L d) = Some d <-> ~ KnownClass_C18 L d).
+  Proof.
+    intros d Hwf. split.
+    - intros H. rewrite (decode_encode_gen d Hwf) in H. injection H as H. now apply ds_trim_fix.
+    - now apply decode_encode.
+  Qed.
 End WithL1.
 
 (** * The specification writer gives the same tree up to attribute order *)
